@@ -2,13 +2,14 @@
 # seedconfirm.sh <seed-id> <worktree> <property>: confirm a sub-agent's seeded change in its scratch worktree
 # (suite passes with the change, demo fails with it and passes without), keep it under /verif/seeded/<id>/.
 set -u
-ID=$1; WT=$2; PROP=$3
+ID=$1; WT=$2; PROP=$3; EXTRA="${4:-}"
 OUT=/verif/seeded/$ID
 mkdir -p $OUT
 cp $WT/SEEDED/patch.diff $WT/SEEDED/demo.rs $WT/SEEDED/notes.md $WT/SEEDED/demo_path.txt $OUT/ 2>/dev/null
 cd $WT
 export CARGO_NET_OFFLINE=true
-DEMO=$(git status --porcelain | grep '^??' | grep -v SEEDED | awk '{print $2}' | head -1)
+cp $WT/SEEDED/demo_cargo_toml.diff $OUT/ 2>/dev/null
+DEMO=$(git status --porcelain --untracked-files=all | grep '^??' | grep -v SEEDED | grep '\.rs$' | awk '{print $2}' | head -1)
 TESTNAME=$(basename "$DEMO" .rs)
 PKG=$(echo "$DEMO" | cut -d/ -f1)
 # 1. suite with the change, demo moved aside
@@ -19,11 +20,11 @@ PASSED=$(grep -E '^test result' /tmp/$ID-suite.log | awk '{s+=$4} END {print s}'
 FAILED=$(grep -E '^test result' /tmp/$ID-suite.log | awk '{s+=$6} END {print s}')
 mv /tmp/$ID-demo.rs "$DEMO"
 # 2. demo with the change
-cargo test -p $PKG --test $TESTNAME --offline > /tmp/$ID-demo-with.log 2>&1
+cargo test -p $PKG --test $TESTNAME --offline $EXTRA > /tmp/$ID-demo-with.log 2>&1
 WITH_RC=$?
 # 3. demo without
 git apply -R SEEDED/patch.diff
-cargo test -p $PKG --test $TESTNAME --offline > /tmp/$ID-demo-without.log 2>&1
+cargo test -p $PKG --test $TESTNAME --offline $EXTRA > /tmp/$ID-demo-without.log 2>&1
 WITHOUT_RC=$?
 git apply SEEDED/patch.diff
 python3 - <<PY
